@@ -367,6 +367,69 @@ class ArrayExpr(SingletonExpr):
                 continue
             dependents[dep._name] = [ref for ref in refs if (node := ref()) is not None and node._name != self._name]
 
+    def simplify_once(self, dependents, simplified):
+        """``Expr.simplify_once``, handing consumer links over to replacements.
+
+        ``dependents`` is collected once per simplify pass, by name.  A node
+        that ``_simplify_down`` puts in ``self``'s place (a fused Slice(Slice),
+        the input of a no-op rechunk) is consumed by whatever consumed
+        ``self``, but is unknown to -- or listed with other consumers in --
+        ``dependents``, so the pushdown gates its children consult in this same
+        step (``_has_grid_sensitive_dependent``) would not see a grid-sensitive
+        consumer such as ``map_blocks``.  Apart from that handover this is the
+        upstream loop.
+        """
+        import weakref
+
+        from dask._expr import Expr
+
+        if self._name in simplified:
+            return simplified[self._name]
+
+        expr = self
+
+        out = expr._simplify_down()
+        if out is None:
+            out = expr
+        if not isinstance(out, Expr):
+            return out
+        if out._name != expr._name:
+            inherited = dependents.get(expr._name)
+            if inherited:
+                dependents[out._name].extend(inherited)
+            expr = out
+
+        # Allow children to simplify their parents
+        for child in expr.dependencies():
+            out = child._simplify_up(expr, dependents)
+            if out is None:
+                out = expr
+
+            if not isinstance(out, Expr):
+                return out
+            if out is not expr and out._name != expr._name:
+                expr = out
+                break
+
+        # Rewrite all of the children
+        new_operands = []
+        changed = False
+        for operand in expr.operands:
+            if isinstance(operand, Expr):
+                dependents[operand._name].append(weakref.ref(expr))
+                new = operand.simplify_once(dependents=dependents, simplified=simplified)
+                simplified[operand._name] = new
+                if new._name != operand._name:
+                    changed = True
+            else:
+                new = operand
+            new_operands.append(new)
+
+        if changed:
+            expr = type(expr)(*new_operands)
+
+        return expr
+
     def _requires_grid_preservation(self, dependency):
         """Whether this node observes a dependency's block grid."""
         return False
